@@ -7,6 +7,7 @@ import Driver.Wire
 import Driver.PC
 import Driver.Match
 import Driver.Bus
+import Driver.Auth
 /-
   Line-protocol driver over Dbus.Model (compiled; imports no proofs and no Mathlib).
 
@@ -40,6 +41,7 @@ structure Stats where
   tree : TreeState := {}
   pc : Dbus.Model.PC.State := {}
   bus : BusState := {}
+  auth : AuthState := {}
 
 def handle (st : Stats) (line : String) : Stats × Option String :=
   let toks := (line.trimAscii.toString.splitOn " ").filter (· ≠ "")
@@ -51,6 +53,9 @@ def handle (st : Stats) (line : String) : Stats × Option String :=
   | "bus" :: rest =>
     let (b, ans) := busCmd st.bus rest
     ({ st with bus := b, bad := if ans = "bad-op" then st.bad + 1 else st.bad }, some ans)
+  | "auth" :: rest =>
+    let (b, ans) := authCmd st.auth rest
+    ({ st with auth := b, bad := if ans = "bad-op" then st.bad + 1 else st.bad }, some ans)
   | "pc" :: rest =>
     let (p, ans) := pcCmd st.pc rest
     ({ st with pc := p, bad := if ans = "bad-op" then st.bad + 1 else st.bad }, some ans)
